@@ -195,6 +195,9 @@ def snippet(z, /, t, n):
     if isinstance(t, u.Quantity):
         t = (t * z.sample_rate).to_value(u.one)
 
+    if isinstance(t, (np.generic, np.ndarray)):
+        t = t.item()  # t + n must not wrap or round in a narrow dtype
+
     if (t < 0) or (len(z) < t + n):
         raise ValueError("Requested snippet goes out of bounds.")
 
